@@ -300,3 +300,9 @@ func VC09_TCPBackends() {
 	rt.Assert(len(rr.backends) == 1 && len(rr.backendMap) == 1, "list and map in step after the removal")
 	rt.Reach("end")
 }
+
+// VC09_UDPBurst: the UDP receive loop and the parse loop share the buffer pool: after an undecodable datagram (or a valid
+// one) a burst arrives while the parse loop lags. No datagram is lost or delivered twice, and no buffer is written by the
+// receive loop while the parse loop still reads it (race monitor on buffer contents) — the scenario of VC10_Burst read for
+// C09's "loses no messages" and "no unsynchronised sharing" under concurrent use of the buffer pool.
+func VC09_UDPBurst() { VC10_Burst() }
